@@ -1,23 +1,35 @@
 import WfProofs.RunnerTerminal
 import WfProofs.EngineTelemetry
+import WfProofs.RunnerNoCrash
+import WfProofs.EnginePolicyEscapes
 /-!
 # C04 — every run ends once, and its stream ends with the matching terminal event
 
-On the runner LTS (`WfModel/Runner.lean`), for **every** configuration, policy, initial
-state and action list (schedules, worker results, external ticks, step-side stream
-writes) whose user-supplied content does not itself publish a `StopEvent`:
+On the runner LTS (`WfModel/Runner.lean`), for **every** configuration, retry-policy oracle
+(including one that raises), initial state satisfying the worker-slot invariant, start event,
+timeout and action list (schedules, worker results, external ticks, step-side stream writes) whose
+user-supplied content does not itself publish a `StopEvent`:
 
 * the run either is still live with no terminal event published, or has ended with a
   stream whose **last** element is the **only** terminal event and is of the kind of
-  the outcome (`EndedWell`), or has `crashed`;
-* once ended, nothing changes any more (one outcome, nothing published after it).
+  the outcome (`EndedWell`) — `C04_terminal_last_unconditional`; there is no third case;
+* once ended, nothing changes any more (one outcome, nothing published after it);
+* so a consumer that stops at the first terminal element stops exactly when the run has ended
+  (`C04_consumer_terminates`).
 
-`crashed` is the model's name for an exception escaping `_reduce_tick`.  It cannot come
-from the engine's own bookkeeping (C01: the slot allocator is total) but it *can* come
-from user code run inside the reducer — a retry policy whose `next()` raises — and then
-the property is false of the real engine: no terminal event is published and
-`stream_events()` never returns (known finding C04/engine_side_failure_no_terminal_event,
-witness `C04_refuted`).
+`crashed` is the model's name for an exception escaping `_reduce_tick`.  The reducer has three
+sources of it (`WfProofs/EngineNoCrash.lean`): no free worker id (`IndexError`), a step result for an
+unknown step (`KeyError`), a step result for a worker that is not in progress (`ValueError`).  All
+three are unreachable from `Runner.init` (`C04_crash_unreachable`): the first by the worker-slot
+invariant (C01), the other two because the loop builds step-result ticks only from its table of started
+workers, which is included in `in_progress` (`RunInv`, `WfProofs/RunnerWorkers.lean`).
+
+Until the repair "a retry policy whose next() raises is treated as granting no retry" there was a fourth
+source — user code run inside the reducer: the exception of `retry_policy.next()` escaped, no terminal
+event was published and `stream_events()` never returned (finding
+C04/engine_side_failure_no_terminal_event, fixed).  The old reducer is kept as a variant
+(`WfProofs/EnginePolicyEscapes.lean`); of it the statement is false (`C04_refuted_unrepaired`), of the
+model it is a theorem (`C04_statement_holds`).
 -/
 set_option linter.unusedVariables false
 open Engine
@@ -75,12 +87,38 @@ theorem C04_init_live (cfg : Cfg) (hwf : cfg.WF) (st0 : State) (now : Int) (star
     simp only [Runner.push, List.nil_append, List.mem_singleton] at ht
     subst ht; rfl
 
-/-- **C04**: at every point of every run, exactly one of three things holds. -/
+/-- C04 without any assumption on the initial state: at every point of every run, exactly one of three
+things holds.  (The third is excluded by `C04_crash_unreachable` as soon as the initial state satisfies
+the worker-slot invariant: `C04_terminal_last_unconditional`.) -/
 theorem C04_terminal_last (cfg : Cfg) (hwf : cfg.WF) (pol : Policy) (st0 : State) (now : Int)
     (start : Option Ev) (timeout : Option Nat) (acts : List Act) (hok : ∀ a ∈ acts, a.ok = true) :
     let r := Runner.run cfg pol (Runner.init cfg st0 now start timeout) acts
     Live r ∨ EndedWell r ∨ r.outcome = some .crashed :=
   run_spec cfg pol acts _ hok (C04_init_live cfg hwf st0 now start timeout)
+
+/-- **no exception escapes the reducer**: for every configuration, every retry-policy oracle (also one
+that raises on every call), every initial state satisfying the worker-slot invariant, every start event
+and timeout and **every** action list (no condition on its content at all), the run never ends `crashed`.
+All three sources of `Cmd.crash` in `reduce` are unreachable from `Runner.init`. -/
+theorem C04_crash_unreachable (cfg : Cfg) (hwf : cfg.WF) (pol : Policy) (st0 : State) (h0 : IdsInv cfg st0)
+    (now : Int) (start : Option Ev) (timeout : Option Nat) (acts : List Act) :
+    (Runner.run cfg pol (Runner.init cfg st0 now start timeout) acts).outcome ≠ some .crashed :=
+  run_not_crashed cfg hwf pol acts _ (init_runInv cfg hwf False st0 h0 now start timeout)
+    (by rw [(C04_init_live cfg hwf st0 now start timeout).1]; simp)
+
+/-- **C04**: at every point of every run, exactly one of two things holds — the run is live and no
+terminal event is on the stream, or it has ended and the last element of the stream is the only terminal
+event, of the kind of the outcome.  No `crashed` case. -/
+theorem C04_terminal_last_unconditional (cfg : Cfg) (hwf : cfg.WF) (pol : Policy) (st0 : State)
+    (h0 : IdsInv cfg st0) (now : Int) (start : Option Ev) (timeout : Option Nat) (acts : List Act)
+    (hok : ∀ a ∈ acts, a.ok = true) :
+    let r := Runner.run cfg pol (Runner.init cfg st0 now start timeout) acts
+    Live r ∨ EndedWell r := by
+  intro r
+  rcases C04_terminal_last cfg hwf pol st0 now start timeout acts hok with h | h | h
+  · exact Or.inl h
+  · exact Or.inr h
+  · exact absurd h (C04_crash_unreachable cfg hwf pol st0 h0 now start timeout acts)
 
 /-- A run ends at most once: after the outcome is set no action changes the outcome or the
 stream (nothing is published after the terminal event). -/
@@ -88,35 +126,75 @@ theorem C04_outcome_once (cfg : Cfg) (pol : Policy) (r : Runner) (acts : List Ac
     (h : r.outcome.isSome = true) : Runner.run cfg pol r acts = r :=
   run_ended cfg pol acts r h
 
-/-- A consumer that stops at the first terminal element of the stream terminates exactly
-when the run has ended well: the terminal element exists, is unique and is last. -/
-theorem C04_consumer_terminates (r : Runner) (h : EndedWell r) :
+/-- the terminal element of a run that ended well exists, is unique and is last -/
+theorem C04_consumer_terminates_of_endedWell (r : Runner) (h : EndedWell r) :
     ∃ pre p, r.stream = pre ++ [p] ∧ isTerminalPub p = true ∧ ∀ q ∈ pre, isTerminalPub q = false := by
   obtain ⟨_, p, pre, _, hs, hn, hp, _⟩ := h
   exact ⟨pre, p, hs, hp, hn⟩
 
-/-! ## The unconditional statement and its refutation -/
+/-- **A consumer of the stream that stops at the first terminal element terminates exactly when the run
+does.**  While the run has no outcome the stream holds no terminal element (the consumer keeps waiting);
+as soon as it has one — whatever it is: there is no engine-side failure case — the stream is `pre ++ [p]`
+with `p` terminal, of the kind of the outcome, and nothing terminal before it. -/
+theorem C04_consumer_terminates (cfg : Cfg) (hwf : cfg.WF) (pol : Policy) (st0 : State)
+    (h0 : IdsInv cfg st0) (now : Int) (start : Option Ev) (timeout : Option Nat) (acts : List Act)
+    (hok : ∀ a ∈ acts, a.ok = true) :
+    let r := Runner.run cfg pol (Runner.init cfg st0 now start timeout) acts
+    (r.outcome = none → ∀ q ∈ r.stream, isTerminalPub q = false) ∧
+    (∀ o, r.outcome = some o →
+      ∃ pre p, r.stream = pre ++ [p] ∧ isTerminalPub p = true ∧ outcomeMatches p o = true ∧
+        ∀ q ∈ pre, isTerminalPub q = false) := by
+  intro r
+  rcases C04_terminal_last_unconditional cfg hwf pol st0 h0 now start timeout acts hok with h | h
+  · refine ⟨fun _ => h.2.1, ?_⟩
+    intro o ho
+    rw [show r.outcome = none from h.1] at ho
+    cases ho
+  · obtain ⟨o', p, pre, ho', hs, hn, hp, hm⟩ := h
+    refine ⟨?_, ?_⟩
+    · intro hnone
+      rw [show r.outcome = some o' from ho'] at hnone
+      cases hnone
+    · intro o ho
+      rw [show r.outcome = some o' from ho'] at ho
+      injection ho with ho
+      subst ho
+      exact ⟨pre, p, hs, hp, hm, hn⟩
 
-def C04_statement : Prop :=
-  ∀ (cfg : Cfg) (pol : Policy) (start : Ev) (acts : List Act), (∀ a ∈ acts, a.ok = true) →
-    let r := Runner.run cfg pol (Runner.init cfg initState 0 (some start) none) acts
+/-! ## The unconditional statement: a theorem of the model, false of the reducer before the repair -/
+
+/-- every run (of the given runner) that has ended has ended well -/
+def C04_statementFor (run : Cfg → Policy → Runner → List Act → Runner) : Prop :=
+  ∀ (cfg : Cfg), cfg.WF → ∀ (pol : Policy) (start : Ev) (acts : List Act), (∀ a ∈ acts, a.ok = true) →
+    let r := run cfg pol (Runner.init cfg initState 0 (some start) none) acts
     r.outcome.isSome = true → EndedWell r
+
+def C04_statement : Prop := C04_statementFor Runner.run
+
+theorem C04_statement_holds : C04_statement := by
+  intro cfg hwf pol start acts hok r ho
+  rcases C04_terminal_last_unconditional cfg hwf pol initState (idsInv_init cfg) 0 (some start) none acts hok
+    with h | h
+  · rw [show r.outcome = none from h.1] at ho
+    cases ho
+  · exact h
 
 def C04.wCfg : Cfg := { steps := [{ name := 0, accepted := [0], numWorkers := 1, hasRetry := true }] }
 def C04.startEv : Ev := { ty := 0, kind := .start, uid := 1 }
 def C04.wActs : List Act := [.drain, .workerDone 0 0 [.failed 7 0], .drain]
 
-/-- F07: the step fails, the user's retry policy raises inside the reducer: the run ends
-(`crashed`) and the stream holds no terminal event at all. -/
-theorem C04_refuted_witness :
-    let r := Runner.run C04.wCfg (fun _ _ _ _ => .raise)
+/-- F07, before the repair: the step fails, the user's retry policy raises inside the reducer: the run
+ends (`crashed`) and the stream holds no terminal event at all. -/
+theorem C04_refuted_witness_unrepaired :
+    let r := Runner.runPolicyEscapes C04.wCfg (fun _ _ _ _ => .raise)
       (Runner.init C04.wCfg initState 0 (some C04.startEv) none) C04.wActs
     r.outcome = some .crashed ∧ r.stream.all (fun p => !isTerminalPub p) = true := by decide
 
-theorem C04_refuted : ¬ C04_statement := by
+theorem C04_refuted_unrepaired : ¬ C04_statementFor Runner.runPolicyEscapes := by
   intro h
-  have hw := C04_refuted_witness
-  have h1 := h C04.wCfg (fun _ _ _ _ => .raise) C04.startEv C04.wActs (by decide)
+  have hw := C04_refuted_witness_unrepaired
+  have h1 := h C04.wCfg (by simp [Cfg.WF, Cfg.names, C04.wCfg]) (fun _ _ _ _ => .raise) C04.startEv C04.wActs
+    (by decide)
   simp only at hw h1
   obtain ⟨o, p, pre, ho, _, _, _, hm⟩ := h1 (by rw [hw.1]; rfl)
   rw [hw.1] at ho
@@ -124,9 +202,43 @@ theorem C04_refuted : ¬ C04_statement := by
   subst ho
   simp [outcomeMatches] at hm
 
-/-! Non-vacuity: a run that completes, one that fails, one that is cancelled. -/
-def C04.okCfg : Cfg := { steps := [{ name := 0, accepted := [0], numWorkers := 1, hasRetry := false }] }
+/-- … and with a policy that does not raise the old reducer and the model are the same function -/
+theorem C04_unrepaired_differs_only_on_raise (cfg : Cfg) (pol : Policy) (step : Nat) (tickEv : Ev) (dc : Bool)
+    (acc : ResAcc) (r : Res)
+    (h : ∀ exc failedAt, r = .failed exc failedAt →
+      retryDecision cfg pol step (failedAt - acc.exec.firstAt) (acc.exec.attempts + 1) exc ≠ .raise) :
+    applyResPolicyEscapes cfg pol step tickEv dc acc r = applyRes cfg pol step tickEv dc acc r :=
+  applyResPolicyEscapes_eq cfg pol step tickEv dc acc r h
+
+/-- the same program and schedule after the repair: the raising policy grants no retry, the run fails with
+the **step's** error (7) and the `WorkflowFailedEvent` is the last element of the stream -/
+example :
+    let r := Runner.run C04.wCfg (fun _ _ _ _ => .raise)
+      (Runner.init C04.wCfg initState 0 (some C04.startEv) none) C04.wActs
+    (r.outcome, r.stream.getLast?, (r.stream.filter isTerminalPub).length) =
+      (some (.failed 0 7), some (.failed 0 7 1 0), 1) := by decide
+
+/-- … and when the failing step is owned by a `@catch_error` handler within its budget, the failure is
+routed to the handler (which here completes the run) although the policy raised -/
+def C04.hCfg : Cfg :=
+  { steps := [{ name := 0, accepted := [0], numWorkers := 1, hasRetry := true },
+              { name := 1, accepted := [tyStepFailed], numWorkers := 1, hasRetry := false }],
+    handlerFor := [(0, 1)], handlers := [(1, 1)] }
 def C04.stopEv : Ev := { ty := 1, kind := .stop, uid := 9 }
+example :
+    let r := Runner.run C04.hCfg (fun _ _ _ _ => .raise)
+      (Runner.init C04.hCfg initState 0 (some C04.startEv) none)
+      [.drain, .workerDone 0 0 [.failed 7 0], .drain, .drain, .drain,
+       .workerDone 1 0 [.result (some C04.stopEv)], .drain]
+    (r.outcome, r.stream.getLast?, (r.stream.filter isTerminalPub).length) =
+      (some (.completed (.event C04.stopEv)), some (.event C04.stopEv), 1) := by decide
+
+/-! Non-vacuity: a run that completes, one that fails, one that is cancelled; the hypotheses of the
+unconditional theorem hold of the initial state of every fresh run. -/
+def C04.okCfg : Cfg := { steps := [{ name := 0, accepted := [0], numWorkers := 1, hasRetry := false }] }
+example : C04.okCfg.WF ∧ C04.wCfg.WF ∧ C04.hCfg.WF ∧ IdsInv C04.wCfg initState :=
+  ⟨by simp [Cfg.WF, Cfg.names, C04.okCfg], by simp [Cfg.WF, Cfg.names, C04.wCfg],
+   by simp [Cfg.WF, Cfg.names, C04.hCfg], idsInv_init _⟩
 example :
     let r := Runner.run C04.okCfg (fun _ _ _ _ => .stop) (Runner.init C04.okCfg initState 0 (some C04.startEv) none)
       [.drain, .workerDone 0 0 [.result (some C04.stopEv)], .drain, .drain]
@@ -139,3 +251,8 @@ example :
     let r := Runner.run C04.okCfg (fun _ _ _ _ => .stop) (Runner.init C04.okCfg initState 0 (some C04.startEv) none)
       [.drain, .external .cancelRun, .pull, .drain]
     (r.outcome, r.stream.getLast?) = (some (.halted .cancelledByUser), some .cancelled) := by decide
+/-- a state that is *not* reachable — a step result for a worker that never started — is what the
+invariant excludes: there the reducer does raise -/
+example :
+    let r0 : Runner := { st := initState, buf := [.stepResult 0 0 C04.startEv [.result none]] }
+    (Runner.run C04.okCfg (fun _ _ _ _ => .stop) r0 [.drain]).outcome = some .crashed := by decide
